@@ -82,7 +82,7 @@ var maskKind = map[maskSet]string{
 	mWildcardUnbacked: "wildcard-gateway-mappings-depend-on-write-order",
 	mStaleDestName:    "stale-destination-kind-name-dropped-by-restore",
 	mStaleHash:        "config-entry-hash-recomputed-by-restore",
-	mUnheldUUID:       "unheld-peering-secret-uuid-dropped-by-restore",
+	mUnheldUUID:       "peering-secret-uuids-diverge-after-peering-id-reuse",
 	mNodeSpelling:     "service-row-node-name-respelled-by-restore",
 	mNameSpelling:     "service-name-letter-case-variants-collapsed-by-write-order",
 }
